@@ -2,7 +2,7 @@
    Model: FilterOut.filter_output_m (single pass, two writers; Python truthiness of chi= / cpd=). *)
 From Coq Require Import QArith List Bool Permutation.
 Import ListNotations.
-From SedV Require Import Xnum Misc FilterOut.
+From SedV Require Import Xnum Misc FilterOut FilterOutProofs.
 
 (* the two outputs are the order-preserving sub-lists of good and not-good records; together a permutation of the input;
    records are passed through unchanged (the outputs are sub-lists of the input list itself) *)
@@ -27,6 +27,26 @@ Proof. exact C18_criterion_cpd. Qed.
 (* a source for which no fit was kept has no best chi^2 to be below a threshold: it goes to the bad file under every criterion *)
 Theorem C18_no_fit : forall chi cpd nd id, good_m chi cpd {| fr_id := id; fr_best := NaN; fr_nd := nd |} = false.
 Proof. exact C18_no_fit_lemma. Qed.
+
+(* nothing is lost or invented: the two files together hold exactly as many records as the input *)
+Theorem C18_counts : forall chi cpd recs,
+  let '(g, b) := filter_output_m chi cpd recs in (length g + length b = length recs)%nat.
+Proof. exact fo_counts. Qed.
+
+(* without a usable threshold (None or 0 for both, Python truthiness) every record goes to the bad file, in input order *)
+Theorem C18_no_threshold : forall chi cpd recs, thr_on chi = false -> thr_on cpd = false ->
+  filter_output_m chi cpd recs = ([], recs).
+Proof. exact fo_no_threshold. Qed.
+
+(* when both chi= and cpd= are given the two criteria are joined by "or" *)
+Theorem C18_both : forall chi cpd r, good_m chi cpd r = good_m chi None r || good_m None cpd r.
+Proof. exact fo_both. Qed.
+
+(* for sources with distinct identifiers, no identifier appears in both files or twice in one *)
+Theorem C18_ids_disjoint : forall chi cpd recs, NoDup (map fr_id recs) ->
+  let '(g, b) := filter_output_m chi cpd recs in
+  NoDup (map fr_id g) /\ NoDup (map fr_id b) /\ forall i, In i (map fr_id g) -> ~ In i (map fr_id b).
+Proof. exact fo_ids_disjoint. Qed.
 
 Example C18_example :
   filter_output_m (Some 3) None [ {| fr_id := 0; fr_best := Fin 1; fr_nd := 2 |}; {| fr_id := 1; fr_best := Fin 5; fr_nd := 2 |};
